@@ -19,6 +19,10 @@ class Program(object):
         for cand in (os.path.join(self.repo, rel + '.py'), os.path.join(self.repo, rel, '__init__.py')):
             if os.path.exists(cand):
                 return cand
+        import sysconfig
+        cand = os.path.join(sysconfig.get_paths()['stdlib'], rel + '.py')   # stdlib source the repo's classes inherit (frozen modules too)
+        if os.path.exists(cand):
+            return cand
         try:
             spec = importlib.util.find_spec(mod)      # stdlib modules whose code the repo's classes inherit (e.g. _collections_abc)
         except (ImportError, AttributeError, ValueError):
